@@ -18,6 +18,24 @@ pub mod inner {
 #[derive(Clone, Debug, Default, PartialEq)]
 pub struct Wrap<T>(pub T);
 
+/// User types that carry the name of a standard type, in modules named like the standard ones.
+pub mod string {
+    #[derive(Clone, Debug, Default, PartialEq)]
+    pub struct String(pub u16);
+}
+pub mod result {
+    #[derive(Clone, Debug, Default, PartialEq)]
+    pub struct Result<T, E>(pub T, pub E);
+}
+pub mod option {
+    #[derive(Clone, Debug, Default, PartialEq)]
+    pub struct Option<T>(pub T, pub u8);
+}
+pub mod vec {
+    #[derive(Clone, Debug, Default, PartialEq)]
+    pub struct Vec(pub [u8; 3]);
+}
+
 #[derive(Clone, Debug, Default, PartialEq)]
 pub struct Pair<A, B>(pub A, pub B);
 
